@@ -266,7 +266,7 @@ def run(tier: str, opts: dict) -> int:
     C = sqlgen.CENTRES
     plan = [("simple", C["simple"], D), ("join", C["join"], D), ("derived", C["derived"], 1), ("cte", C["cte"], 1), ("star", C["star"], 1), ("setop", C["setop"], 1), ("tables", sqlgen.TABLE_PROFILE, 1)]
     if tier != "quick":
-        plan = [("simple", C["simple"], 2), ("join", C["join"], 2), ("derived", C["derived"], 1), ("cte", C["cte"], 1), ("star", C["star"], 2), ("setop", C["setop"], 1), ("tables", sqlgen.TABLE_PROFILE, 2)]
+        plan = [("simple", C["simple"], 2), ("join", C["join"], 2), ("derived", C["derived"], 1), ("cte", C["cte"], 1), ("star", C["star"], 2), ("setop", C["setop"], 1), ("tables", sqlgen.TABLE_PROFILE_R3, 2), ("tables", sqlgen.TABLE_PROFILE, 1)]
     cases, n_exec = enumerate_plan(plan, 2)
     tasks = []
     seen = set()
